@@ -489,14 +489,14 @@ def depth_job(eng, tables, prop, levels, native_levels, deadline, max_paths=None
     accepted = [r for r in results if r[1] == "Ok"]
     # bounded iff some level is rejected (a budget kicks in); unbounded iff every explored level is
     # accepted with the number of live parser activations growing with the level
-    if accepted and len(accepted) == len(results) and accepted[-1][2] is not None and \
-            accepted[-1][2] > accepted[0][2]:
+    if accepted and len(accepted) == len(results) and accepted[-1][3] is not None and \
+            accepted[-1][3] > accepted[0][3]:
         job.findings.append({
             "property": prop, "key": "%s:nesting:protected-header-countersignature-cycle" % prop,
-            "what": "decoding re-enters the byte-level parser once per nesting level (counter-signature -> "
-                    "protected header -> counter-signature ...): %s live activations at %s levels, every level "
-                    "accepted, no budget in the path condition -- depth is bounded only by the input length"
-                    % (accepted[-1][2], accepted[-1][0]),
+            "what": "decoding recurses once per nesting level (counter-signature -> protected header, parsed "
+                    "with a fresh budget -> counter-signature ...): call depth %s at %s levels, every explored "
+                    "level accepted, no budget in the path condition -- depth is bounded only by the input length"
+                    % (accepted[-1][3], accepted[-1][0]),
             "op": "ops", "type": "CoseSign1", "input_hex": "",
             "command": "ops nested_sign1 %d" % native_levels, "predicted": "CRASH", "compare": "startswith"})
     job.samples.append({"levels": results})
